@@ -1,10 +1,10 @@
 (* C03: the value-range and recipient invariants the block hooks rely on ([range_inv]), and the
    well-formedness of operations for the no-halt theorem.  Definitions only. *)
 From Hub Require Import Base.Prelude Base.Arith Model.Types Model.Keeper Model.Handlers Model.Hooks Model.Step.
+From Hub Require Export Model.Domain.
 From Hub Require Import Proofs.Tactics Proofs.Frames Proofs.Money Proofs.KeysInv Proofs.InvDefs.
 
-(* DESIGN §5.1: no account ever holds 2^250 base units or more of a denomination (total supply < 2^250) *)
-Definition BIG : Z := 2 ^ 250.
+(* BIG = 2^250, the supply bound of DESIGN §5.1, is defined in Model/Domain.v *)
 
 Definition not_blocked (s : state) (a : addr) : Prop := a ∉ c_blocked (cfg s).
 
